@@ -74,6 +74,9 @@ theorem typesEnabled_of_mem {cfg : Config} {t : CandType} (h : cfg.candTypes.con
     simp [he] at h
   · exact List.contains_iff_mem.1 h
 
+theorem ofTransport_is6 (tcp v6 : Bool) : (NetType.ofTransport tcp v6).is6 = v6 := by
+  cases tcp <;> cases v6 <;> rfl
+
 /-- base clause for a unit that binds either an accepted local address (filters installed) or the
 wildcard address -/
 theorem baseOk_of {cfg : Config} {nts : List NetType} {ifs : List Iface} {b : Addr} {v6 : Bool}
@@ -111,43 +114,79 @@ theorem C18_sound (cfg : Config) (ifs : List Iface) (hq : cfg.quirks = []) (hwf 
       simp only [List.mem_append] at hu
       rcases hu with hu | hu
       · -- UDP mux
-        obtain ⟨addrs, a, hmux, hamem, rfl, hen, hsup⟩ := (mem_hostMuxUnits hq).1 hu
+        obtain ⟨addrs, a, mp, hmux, hamem, hmp, rfl, hen, hsup⟩ := (mem_hostMuxUnits hq).1 hu
         have hne := netEnabled_of_configured hen
         have hex := supported_not_excluded hsup
         by_cases hmd : cfg.mdnsGather = true
         · have h46 : (netEnabled cfg (NetType.ofTransport false false) || netEnabled cfg (NetType.ofTransport false true)) = true := by
-            cases h6 : a.cls.is6 <;> simp_all
+            cases h6 : mp.cls.is6 <;> simp_all
           simp [candViolation, unitCand, hmd, hT, h46, excludedClass, AddrClass.isLinkLocal6, hmux, NetType.isTCP]
         · have hmd' : cfg.mdnsGather = false := by simpa using hmd
-          have hk : a.cls.isLinkLocal6 = false := by simpa [unitCand, hmd'] using hh
-          have hnm : (a.cls == AddrClass.nm) = false := by
-            simp only [realAddrs, hmux, Option.getD_some, Bool.and_eq_true, List.all_eq_true] at hwf
-            simpa using hwf.1.2 a hamem
-          simp [candViolation, unitCand, hmd', hT, hne, hex, hk, hmux, hnm]
-      · -- interface table
-        obtain ⟨a, hl, hb, _, _, h⟩ := (mem_hostIfaceUnits hq).1 hu
-        obtain ⟨kind, net, bind, url, n⟩ := u
-        simp only at hb h
-        subst hb
+          have hq9 : cfg.has 9 = false := by simp [Config.has, hq]
+          have hk : mp.cls.isLinkLocal6 = false := by simpa [unitCand, hmd', hq9] using hh
+          have hw := hwf
+          simp only [realAddrs, hmux, Option.getD_some, Bool.and_eq_true, List.all_eq_true] at hw
+          rcases mem_muxMapped hmp with hma | ⟨_, r, hr, hext⟩
+          · subst hma
+            have hnm : (mp.cls == AddrClass.nm) = false := by simpa using hw.1.1.2 mp hamem
+            simp [candViolation, unitCand, GUnit.sockBase, hmd', hT, hne, hex, hk, hmux, hnm, ofTransport_is6]
+          · have hnm : (mp.cls == AddrClass.nm) = false := by
+              simp only [hr, Option.map_some, Option.getD_some] at hw
+              simpa using hw.2 mp hext
+            have hce : mp ∈ hostExts cfg := by
+              simp only [hostExts, hr, Option.map_some, Option.getD_some]; exact hext
+            by_cases hma : mp = a
+            · subst hma
+              simp [candViolation, unitCand, GUnit.sockBase, hmd', hT, hne, hex, hk, hmux, hnm, ofTransport_is6]
+            · simp [candViolation, unitCand, GUnit.sockBase, hma, hce, hmd', hT, hne, hex, hk, hmux, hnm, ofTransport_is6]
+      · -- interface table: the socket is on `bind`, the candidate publishes `mapped`
+        obtain ⟨kind, net, bind, url, n, mapped⟩ := u
+        obtain ⟨a, ifc, mp, hmem, hmp, hb, hmpd, _, _, hsup, h⟩ := (mem_hostIfaceUnits hq).1 hu
+        simp only at hb hmpd h
+        subst hb hmpd
+        have hl := local_of_mem hmem
+        simp only at hl
         have hacc := onAccepted_of_local hl
-        have hex := supported_not_excluded (local_supported hl)
-        have hnm : (bind.cls == AddrClass.nm) = false := by
+        have hex := supported_not_excluded hsup
+        have hw := hwf
+        simp only [realAddrs, Bool.and_eq_true, List.all_eq_true] at hw
+        have hnmb : (bind.cls == AddrClass.nm) = false := by
           obtain ⟨i, hi, _, ha, _⟩ := hl
-          simp only [realAddrs, Bool.and_eq_true, List.all_eq_true] at hwf
-          simpa using hwf.1.1 i hi bind ha
+          simpa using hw.1.1.1 i hi bind ha
+        -- what the published address can be: the socket's, or an external address of the rule (never with mDNS)
+        have hpub : (mapped = bind) ∨ (mapped ≠ bind ∧ cfg.mdnsGather = false ∧ mapped ∈ hostExts cfg
+            ∧ (mapped.cls == AddrClass.nm) = false) := by
+          by_cases hma : mapped = bind
+          · exact Or.inl hma
+          · rcases mem_hostMapped hmp with h' | ⟨hmd, r, hr, hext⟩
+            · exact absurd h' hma
+            · refine Or.inr ⟨hma, hmd, ?_, ?_⟩
+              · simp only [hostExts, hr, Option.map_some, Option.getD_some]; exact hext
+              · simp only [hr, Option.map_some, Option.getD_some] at hw
+                simpa using hw.2 mapped hext
         rcases h with ⟨rfl, rfl, hen, hmux⟩ | ⟨rfl, rfl, hen, hmux⟩
         · have hne := netEnabled_of_configured hen
           have htm : cfg.tcpMux.isSome = true := by
             unfold tcpMuxAccepts at hmux
             cases h : cfg.tcpMux <;> simp_all
-          have hk : (bind.cls.isLinkLocal6 && !cfg.mdnsGather) = false := by
+          have hk : (mapped.cls.isLinkLocal6 && !cfg.mdnsGather) = false := by
             simpa [unitCand, Bool.and_comm] using hh
-          simp [candViolation, unitCand, hT, hne, hex, hnm, hk, htm]
+          rcases hpub with hma | ⟨hma, hmd, hce, hnm⟩
+          · subst hma
+            simp [candViolation, unitCand, GUnit.sockBase, hT, hne, hex, hnmb, hk, htm, ofTransport_is6]
+          · have hk' : mapped.cls.isLinkLocal6 = false := by simpa [hmd] using hk
+            simp [candViolation, unitCand, GUnit.sockBase, hma, hce, hmd, hT, hne, hex, hnm, hk', htm, ofTransport_is6]
         · have hne := netEnabled_of_configured hen
-          have hk : (bind.cls.isLinkLocal6 && !cfg.mdnsGather) = false := by
+          have hk : (mapped.cls.isLinkLocal6 && !cfg.mdnsGather) = false := by
             simpa [unitCand, Bool.and_comm] using hh
-          have hnt : (NetType.ofTransport false bind.cls.is6).isTCP = false := by cases bind.cls.is6 <;> rfl
-          simp [candViolation, unitCand, hT, hne, hex, hnm, hk, ownPortFlag_ne_M, hnt, hmux, hacc, portOk_own]
+          have hnt : (NetType.ofTransport false mapped.cls.is6).isTCP = false := by cases mapped.cls.is6 <;> rfl
+          rcases hpub with hma | ⟨hma, hmd, hce, hnm⟩
+          · subst hma
+            simp [candViolation, unitCand, GUnit.sockBase, hT, hne, hex, hnmb, hk, ownPortFlag_ne_M, hnt, hmux, hacc,
+              portOk_own, ofTransport_is6]
+          · have hk' : mapped.cls.isLinkLocal6 = false := by simpa [hmd] using hk
+            simp [candViolation, unitCand, GUnit.sockBase, hma, hce, hmd, hT, hne, hex, hnm, hk', ownPortFlag_ne_M, hnt,
+              hmux, hacc, portOk_own, ofTransport_is6]
     · simp at hu
   · -- server reflexive
     split at hu
@@ -200,7 +239,7 @@ theorem C18_sound (cfg : Config) (ifs : List Iface) (hq : cfg.quirks = []) (hwf 
             have hex := supported_not_excluded (local_supported hl)
             obtain ⟨i, hi, _, ha, _⟩ := hl
             simp only [realAddrs, Bool.and_eq_true, List.all_eq_true] at hwf
-            exact ⟨by simp [hex], by simpa using hwf.1.1 i hi bind ha⟩
+            exact ⟨by simp [hex], by simpa using hwf.1.1.1 i hi bind ha⟩
           · subst hb; cases net.is6 <;> simp [unspec, excludedClass]
         have hpub := hp
         simp only [publishable, unitCand, Bool.and_eq_true, Bool.or_eq_true, Bool.not_eq_true', bne_iff_ne, ne_eq,
@@ -229,7 +268,7 @@ theorem C18_sound (cfg : Config) (ifs : List Iface) (hq : cfg.quirks = []) (hwf 
             have hex := supported_not_excluded hsup
             have hw := hwf
             simp only [realAddrs, hpe, Option.map_some, Option.getD_some, Bool.and_eq_true, List.all_eq_true] at hw
-            exact ⟨by simp [hex], by simpa using hw.2 a hmem⟩
+            exact ⟨by simp [hex], by simpa using hw.1.2 a hmem⟩
         obtain ⟨hex, hnm⟩ := haddr _ rfl
         simp [candViolation, unitCand, hT, hnet, hex, hnm, hk, ownPortFlag_ne_M, hbase, portOk_own]
     · simp at hu
@@ -238,7 +277,7 @@ theorem C18_sound (cfg : Config) (ifs : List Iface) (hq : cfg.quirks = []) (hwf 
     · rename_i hty
       have hT := typesEnabled_of_mem hty
       obtain ⟨hk, hn, hb⟩ := mem_relayUnits hu
-      obtain ⟨kind, net, bind, url, n⟩ := u
+      obtain ⟨kind, net, bind, url, n, mp⟩ := u
       simp only at hk hn hb
       subst hk hn
       have hq3 : cfg.has 3 = false := by simp [Config.has, hq]
@@ -250,9 +289,9 @@ theorem C18_sound (cfg : Config) (ifs : List Iface) (hq : cfg.quirks = []) (hwf 
         · simp at h
         · exact h
       have hbase := baseOk_of (v6 := false) hb
-      have haddr : excludedClass (unitCand cfg ⟨.relay, .udp4, bind, url, n⟩ ci m).addr.cls = false
-          ∧ ((unitCand cfg ⟨.relay, .udp4, bind, url, n⟩ ci m).addr.cls == AddrClass.nm) = false
-          ∧ (unitCand cfg ⟨.relay, .udp4, bind, url, n⟩ ci m).addr.cls.isLinkLocal6 = false := by
+      have haddr : excludedClass (unitCand cfg ⟨.relay, .udp4, bind, url, n, mp⟩ ci m).addr.cls = false
+          ∧ ((unitCand cfg ⟨.relay, .udp4, bind, url, n, mp⟩ ci m).addr.cls == AddrClass.nm) = false
+          ∧ (unitCand cfg ⟨.relay, .udp4, bind, url, n, mp⟩ ci m).addr.cls.isLinkLocal6 = false := by
         simp only [unitCand]
         rcases relayAddr_cases cfg m ci with h | h <;> rw [h] <;> simp [excludedClass, AddrClass.isLinkLocal6]
       obtain ⟨hex, hnm, hk⟩ := haddr
@@ -330,101 +369,252 @@ theorem requested_of_enabled {cfg : Config} {tcp v6 : Bool} (h : netEnabled cfg 
     rw [List.any_eq_true]
     exact ⟨_, hmem, by cases tcp <;> rfl⟩
 
-theorem eligible_local {cfg : Config} {ifs : List Iface} {a : Addr} {tcp : Bool}
-    (he : eligibleAddr cfg ifs a = true) (hen : netEnabled cfg (NetType.ofTransport tcp a.cls.is6) = true) :
-    Local cfg (configured cfg.netTypes) ifs a := by
+theorem not_excluded_supported {c : AddrClass} (h : excludedClass c = false) : c.is6 = true → c.supported6 = true := by
+  cases c <;> simp_all [excludedClass, AddrClass.supported6, AddrClass.is6]
+
+/-- an eligible address on a given accepted interface, of a requested family, is in `localInterfaces` with
+that interface -/
+theorem eligible_local {cfg : Config} {ifs : List Iface} {a : Addr} {tcp : Bool} {ifc : Nat}
+    (he : eligibleAddr cfg ifs a = true) (hifc : ifc ∈ acceptedIfacesOf cfg ifs a)
+    (hen : netEnabled cfg (NetType.ofTransport tcp a.cls.is6) = true) :
+    (a, ifc) ∈ localAddrs cfg (configured cfg.netTypes) ifs := by
   simp only [eligibleAddr, Bool.and_eq_true, Bool.not_eq_true', Bool.or_eq_true] at he
   obtain ⟨⟨hacc, hex⟩, _⟩ := he
   have hreq := (requested_of_enabled hen).1
-  apply local_of_onAccepted _ hacc
-  cases h6 : a.cls.is6
-  · simpa [h6] using hreq
-  · simp only [↓reduceIte]
-    refine ⟨by simpa [h6] using hreq, ?_⟩
-    cases hc : a.cls <;> simp_all [excludedClass, AddrClass.supported6, AddrClass.is6]
+  have hfam : if a.cls.is6 then v6Requested (configured cfg.netTypes) = true ∧ a.cls.supported6 = true
+      else v4Requested (configured cfg.netTypes) = true := by
+    cases h6 : a.cls.is6
+    · simpa [h6] using hreq
+    · simp only [↓reduceIte]
+      exact ⟨by simpa [h6] using hreq, not_excluded_supported hex h6⟩
+  -- the address part of the test does not depend on the interface
+  obtain ⟨_, _, _, _, hok⟩ := local_of_onAccepted (configured cfg.netTypes) hacc hfam
+  simp only [acceptedIfacesOf, List.mem_map, List.mem_filter, Bool.and_eq_true, Bool.or_eq_true,
+    Bool.not_eq_true'] at hifc
+  obtain ⟨i, ⟨hi, ⟨⟨hup, hlo⟩, hif⟩, hmem⟩, rfl⟩ := hifc
+  refine mem_localAddrs.2 ⟨i, hi, ?_, rfl, List.contains_iff_mem.1 hmem, hok⟩
+  simp only [ifaceAccepted, ifFilterAccepts, hup, Bool.true_and, Bool.and_eq_true, Bool.not_eq_true',
+    Bool.and_eq_false_imp]
+  refine ⟨?_, ?_⟩
+  · intro hl; rcases hlo with h | h <;> simp_all
+  · cases hf : cfg.ifFilter <;> simp_all
 
-/-- **Completeness.** For ALL configurations and interface tables: every eligible interface address
-(accepted interface and address, not in an excluded class, link-local only in mDNS gather mode)
-has, for each enabled transport with a listener, a host gather unit whose candidate is published
-(not location-tracked) with exactly that network type and address — UDP on an own socket when no UDP
-mux is configured, TCP on the TCP mux when the mux listener covers the address; and every enabled UDP
-mux listen address has its unit.  (That a unit whose listen succeeds in a live cycle does add its
-candidate is `C18_complete_unit` below.) -/
+theorem isEmpty_filter_eq {α : Type} (p : α → Bool) (l : List α) : (l.filter p).isEmpty = !l.any p := by
+  induction l with
+  | nil => rfl
+  | cons x t ih => cases hx : p x <;> simp [List.filter, hx, ih]
+
+/-- the model's lookup is the spec's reading of the rule (`ruleApplies` / `ruleExts`) -/
+theorem lookup_spec {cfg : Config} {r : HostRule} (hr : cfg.hostRule = some r) (hmd : cfg.mdnsGather = false)
+    (a : Addr) (ifc : Option Nat) :
+    r.lookup a ifc = if ruleApplies cfg a ifc then some (ruleExts cfg a ifc) else none := by
+  unfold ruleExts ruleApplies HostRule.lookup
+  simp only [hr, hmd, Bool.not_false, Bool.true_and]
+  cases hi : r.iface with
+  | none =>
+    cases hp : r.pin with
+    | none =>
+      simp only [Option.isSome_none, Bool.false_and, Bool.false_eq_true, ↓reduceIte, Bool.true_and, isEmpty_filter_eq]
+      cases hany : r.exts.any (fun e => e.cls.is6 == a.cls.is6) <;> simp
+    | some p =>
+      by_cases hpa : a = p
+      · subst hpa; simp
+      · have : (p == a) = false := by simpa using fun h => hpa h.symm
+        simp [hpa, this]
+  | some i =>
+    by_cases hic : ifc = some i
+    · subst hic
+      cases hp : r.pin with
+      | none =>
+        simp only [Option.isSome_some, bne_self_eq_false, Bool.and_false, Bool.false_eq_true, ↓reduceIte, beq_self_eq_true,
+          Bool.true_and, isEmpty_filter_eq, Option.isSome_none]
+        cases hany : r.exts.any (fun e => e.cls.is6 == a.cls.is6) <;> simp
+      | some p =>
+        by_cases hpa : a = p
+        · subst hpa; simp
+        · have : (p == a) = false := by simpa using fun h => hpa h.symm
+          simp [hpa, this]
+    · have h1 : (some i != ifc) = true := by simpa using fun h => hic h.symm
+      have h2 : (ifc == some i) = false := by simpa using hic
+      simp [h1, h2]
+
+theorem hostMapped_self {cfg : Config} {a : Addr} {ifc : Nat} (h : ruleReplaces cfg a (some ifc) = false) :
+    a ∈ hostMapped cfg a ifc := by
+  unfold hostMapped
+  split
+  · simp
+  · rename_i hmd
+    have hmd' : cfg.mdnsGather = false := by simpa using hmd
+    cases hr : cfg.hostRule with
+    | none => simp
+    | some r =>
+      simp only
+      split
+      · simp
+      · rw [lookup_spec hr hmd']
+        simp only [ruleReplaces, hr, Option.map_some, Option.getD_some, Bool.and_eq_false_imp] at h
+        cases hap : ruleApplies cfg a (some ifc)
+        · simp
+        · cases hrep : r.replace
+          · simp
+          · simp [h hrep] at hap
+
+theorem hostMapped_ext {cfg : Config} {a e : Addr} {ifc : Nat} (hk : a.cls.isLinkLocal6 = false)
+    (h : e ∈ ruleExts cfg a (some ifc)) : e ∈ hostMapped cfg a ifc := by
+  have hap : ruleApplies cfg a (some ifc) = true := by
+    unfold ruleExts at h; split at h
+    · assumption
+    · simp at h
+  cases hr : cfg.hostRule with
+  | none => simp [ruleApplies, hr] at hap
+  | some r =>
+    have hmd : cfg.mdnsGather = false := by
+      simp only [ruleApplies, hr, Bool.and_eq_true, Bool.not_eq_true'] at hap; exact hap.1.1
+    unfold hostMapped
+    simp only [hmd, Bool.false_eq_true, ↓reduceIte, hr, hk, lookup_spec hr hmd, hap, List.mem_append]
+    exact Or.inr h
+
+theorem muxMapped_self {cfg : Config} {a : Addr} (h : ruleReplaces cfg a none = false) : a ∈ muxMapped cfg a := by
+  unfold muxMapped
+  split
+  · simp
+  · rename_i hmd
+    have hmd' : cfg.mdnsGather = false := by simpa using hmd
+    cases hr : cfg.hostRule with
+    | none => simp
+    | some r =>
+      simp only
+      rw [lookup_spec hr hmd']
+      simp only [ruleReplaces, hr, Option.map_some, Option.getD_some, Bool.and_eq_false_imp] at h
+      cases hap : ruleApplies cfg a none
+      · simp
+      · cases hrep : r.replace
+        · simp
+        · simp [h hrep] at hap
+
+theorem muxMapped_ext {cfg : Config} {a e : Addr} (h : e ∈ ruleExts cfg a none) : e ∈ muxMapped cfg a := by
+  have hap : ruleApplies cfg a none = true := by
+    unfold ruleExts at h; split at h
+    · assumption
+    · simp at h
+  cases hr : cfg.hostRule with
+  | none => simp [ruleApplies, hr] at hap
+  | some r =>
+    have hmd : cfg.mdnsGather = false := by
+      simp only [ruleApplies, hr, Bool.and_eq_true, Bool.not_eq_true'] at hap; exact hap.1.1
+    unfold muxMapped
+    simp only [hmd, Bool.false_eq_true, ↓reduceIte, hr, lookup_spec hr hmd, hap, List.mem_append]
+    exact Or.inr h
+
+/-- `e` is one of the addresses the configuration has interface address `a` (seen on interface `ifc`, or
+`none` for a mux listen address) published as: `a` itself where the host rule leaves it in place, and every
+external address the rule assigns to it -/
+def PublishedAs (cfg : Config) (a : Addr) (ifc : Option Nat) (e : Addr) : Prop :=
+  (e = a ∧ ruleReplaces cfg a ifc = false) ∨ e ∈ ruleExts cfg a ifc
+
+theorem hostMapped_of_publishedAs {cfg : Config} {ifs : List Iface} {a e : Addr} {ifc : Nat}
+    (he : eligibleAddr cfg ifs a = true) (h : PublishedAs cfg a (some ifc) e) : e ∈ hostMapped cfg a ifc := by
+  rcases h with ⟨rfl, h⟩ | h
+  · exact hostMapped_self h
+  · by_cases hmd : cfg.mdnsGather = true
+    · exfalso
+      unfold ruleExts ruleApplies at h
+      cases hr : cfg.hostRule <;> simp [hr, hmd] at h
+    · apply hostMapped_ext _ h
+      simp only [eligibleAddr, Bool.and_eq_true, Bool.or_eq_true, Bool.not_eq_true'] at he
+      rcases he.2 with h' | h'
+      · exact h'
+      · exact absurd h' hmd
+
+/-- **Completeness.** For ALL configurations and interface tables: every eligible interface address `a`
+(accepted interface and address, not in an excluded class, link-local only in mDNS gather mode), on every
+accepted interface `ifc` carrying it, has for each address `e` it is to be published as (`PublishedAs`: itself
+where the host rule leaves it in place, every external address the rule assigns to it) that is not in an
+excluded class, and for each transport with a listener whose network types (the one of `e` and the one of the
+socket's own address `a`) are enabled, a host gather unit with its socket on `a` whose candidate carries
+exactly the network type of `e` and the address `e` — published unless `e` is location-tracked; UDP on an own
+socket when no UDP mux is configured, TCP on the TCP mux when the mux listener covers `a`.  (That a unit
+whose listen succeeds in a live cycle does add its candidate is `C18_complete_gather` below.) -/
 theorem C18_complete (cfg : Config) (ifs : List Iface) (hq : cfg.quirks = [])
-    (hh : cfg.candTypes.contains .host = true) (a : Addr) (he : eligibleAddr cfg ifs a = true) :
-    (cfg.udpMux = none → netEnabled cfg (NetType.ofTransport false a.cls.is6) = true →
+    (hh : cfg.candTypes.contains .host = true) (a : Addr) (he : eligibleAddr cfg ifs a = true)
+    (ifc : Nat) (hifc : ifc ∈ acceptedIfacesOf cfg ifs a) (e : Addr) (hpub : PublishedAs cfg a (some ifc) e)
+    (hexe : excludedClass e.cls = false) :
+    (cfg.udpMux = none → netEnabled cfg (NetType.ofTransport false e.cls.is6) = true →
+        netEnabled cfg (NetType.ofTransport false a.cls.is6) = true →
       ∃ u ∈ allUnits cfg ifs, u.kind = .hostUdp ∧ u.bind = a ∧
-        (unitCand cfg u 0 0).hidden = false ∧ (unitCand cfg u 0 0).net = NetType.ofTransport false a.cls.is6
-        ∧ (unitCand cfg u 0 0).addr = a)
-    ∧ (tcpMuxAccepts cfg a = true → netEnabled cfg (NetType.ofTransport true a.cls.is6) = true →
+        (unitCand cfg u 0 0).hidden = (!cfg.mdnsGather && e.cls.isLinkLocal6)
+        ∧ (unitCand cfg u 0 0).net = NetType.ofTransport false e.cls.is6 ∧ (unitCand cfg u 0 0).addr = e)
+    ∧ (tcpMuxAccepts cfg a = true → netEnabled cfg (NetType.ofTransport true e.cls.is6) = true →
+        netEnabled cfg (NetType.ofTransport true a.cls.is6) = true →
       ∃ u ∈ allUnits cfg ifs, u.kind = .hostTcp ∧ u.bind = a ∧
-        (unitCand cfg u 0 0).hidden = false ∧ (unitCand cfg u 0 0).net = NetType.ofTransport true a.cls.is6
-        ∧ (unitCand cfg u 0 0).addr = a) := by
-  have hk : (!cfg.mdnsGather && a.cls.isLinkLocal6) = false := by
-    simp only [eligibleAddr, Bool.and_eq_true, Bool.or_eq_true, Bool.not_eq_true'] at he
-    rcases he.2 with h | h <;> simp [h]
+        (unitCand cfg u 0 0).hidden = (!cfg.mdnsGather && e.cls.isLinkLocal6)
+        ∧ (unitCand cfg u 0 0).net = NetType.ofTransport true e.cls.is6 ∧ (unitCand cfg u 0 0).addr = e) := by
+  have hm := hostMapped_of_publishedAs he hpub
+  have hsup := not_excluded_supported hexe
   constructor
-  · intro hmux hen
-    refine ⟨{ kind := .hostUdp, net := NetType.ofTransport false a.cls.is6, bind := a }, ?_, rfl, rfl, ?_, rfl, rfl⟩
-    · simp only [allUnits, hh, ↓reduceIte, List.mem_append]
-      refine Or.inl (Or.inl (Or.inr ?_))
-      exact (mem_hostIfaceUnits (u := { kind := .hostUdp, net := NetType.ofTransport false a.cls.is6, bind := a }) hq).2
-        ⟨a, eligible_local he hen, rfl, rfl, rfl, Or.inr ⟨rfl, rfl, (requested_of_enabled hen).2, hmux⟩⟩
-    · simpa [unitCand] using hk
-  · intro hmux hen
-    refine ⟨{ kind := .hostTcp, net := NetType.ofTransport true a.cls.is6, bind := a }, ?_, rfl, rfl, ?_, rfl, rfl⟩
-    · simp only [allUnits, hh, ↓reduceIte, List.mem_append]
-      refine Or.inl (Or.inl (Or.inr ?_))
-      exact (mem_hostIfaceUnits (u := { kind := .hostTcp, net := NetType.ofTransport true a.cls.is6, bind := a }) hq).2
-        ⟨a, eligible_local he hen, rfl, rfl, rfl, Or.inl ⟨rfl, rfl, (requested_of_enabled hen).2, hmux⟩⟩
-    · simpa [unitCand] using hk
+  · intro hmux hen hena
+    refine ⟨{ kind := .hostUdp, net := NetType.ofTransport false e.cls.is6, bind := a, mapped := e }, ?_, rfl, rfl, rfl, rfl, rfl⟩
+    simp only [allUnits, hh, ↓reduceIte, List.mem_append]
+    refine Or.inl (Or.inl (Or.inr ?_))
+    exact (mem_hostIfaceUnits hq).2 ⟨a, ifc, e, eligible_local he hifc hena, hm, rfl, rfl, rfl, rfl, hsup,
+      Or.inr ⟨rfl, rfl, (requested_of_enabled hen).2, hmux⟩⟩
+  · intro hmux hen hena
+    refine ⟨{ kind := .hostTcp, net := NetType.ofTransport true e.cls.is6, bind := a, mapped := e }, ?_, rfl, rfl, rfl, rfl, rfl⟩
+    simp only [allUnits, hh, ↓reduceIte, List.mem_append]
+    refine Or.inl (Or.inl (Or.inr ?_))
+    exact (mem_hostIfaceUnits hq).2 ⟨a, ifc, e, eligible_local he hifc hena, hm, rfl, rfl, rfl, rfl, hsup,
+      Or.inl ⟨rfl, rfl, (requested_of_enabled hen).2, hmux⟩⟩
 
 open IceProofs.GatherComplete in
 /-- **Completeness, end to end, for UDP on ephemeral ports.** From ANY state of the repaired model whose
 gathering state is New (fresh agent, or after any history that ended with a Restart) with host
 gathering enabled, no UDP mux and no port range: `GatherCandidates` is accepted and afterwards every
-eligible interface address whose UDP network type is enabled has a published (not location-tracked)
-host candidate with exactly that network type and address in the candidate list.  (With a port range
-the same holds whenever a port of the range is free on the address at that moment; that case, TCP and
-the mux are covered by `C18_complete` / `C18_complete_mux` plus the lock-step comparison.) -/
+eligible interface address `a`, for every address `e` it is to be published as (itself where the host rule
+leaves it in place, every external address the rule assigns to it) outside the excluded classes and with the
+UDP network types of `e` and of `a` enabled, has a host candidate with exactly the network type of `e` and the
+address `e` in the candidate list — published unless `e` is location-tracked.  (With a port range the same
+holds whenever a port of the range is free on the address at that moment; that case, TCP and the mux are
+covered by `C18_complete` / `C18_complete_mux` plus the lock-step comparison.) -/
 theorem C18_complete_gather (s : MState) (hq : s.cfg.quirks = []) (hh : s.cfg.candTypes.contains .host = true)
     (hmux : s.cfg.udpMux = none) (hpr : portRange s.cfg = none) (hnc : s.cyc.closed = false)
     (hnew : s.cyc.gs = Cycle.GS.new) (a : Addr) (he : eligibleAddr s.cfg s.ifs a = true)
-    (hen : netEnabled s.cfg (NetType.ofTransport false a.cls.is6) = true) :
+    (ifc : Nat) (hifc : ifc ∈ acceptedIfacesOf s.cfg s.ifs a) (e : Addr) (hpub : PublishedAs s.cfg a (some ifc) e)
+    (hexe : excludedClass e.cls = false)
+    (hen : netEnabled s.cfg (NetType.ofTransport false e.cls.is6) = true)
+    (hena : netEnabled s.cfg (NetType.ofTransport false a.cls.is6) = true) :
     (step s .gather).2 = Rtok.ok ∧
-      ∃ mc ∈ (step s .gather).1.cands, mc.d.ty = .host ∧ mc.d.net = NetType.ofTransport false a.cls.is6
-        ∧ mc.d.addr = a ∧ mc.d.hidden = false := by
+      ∃ mc ∈ (step s .gather).1.cands, mc.d.ty = .host ∧ mc.d.net = NetType.ofTransport false e.cls.is6
+        ∧ mc.d.addr = e ∧ mc.d.hidden = (!s.cfg.mdnsGather && e.cls.isLinkLocal6) := by
   obtain ⟨s1, hc, hi, hl, hstep⟩ := step_gather_new s hnc hnew
   rw [hstep]
   refine ⟨rfl, ?_⟩
   simp only [finishCycle_cands]
-  have hu : ({ kind := .hostUdp, net := NetType.ofTransport false a.cls.is6, bind := a } : GUnit)
+  have hu : ({ kind := .hostUdp, net := NetType.ofTransport false e.cls.is6, bind := a, mapped := e } : GUnit)
       ∈ hostIfaceUnits s1.cfg s1.ifs := by
     rw [hc, hi]
-    exact (mem_hostIfaceUnits hq).2 ⟨a, eligible_local he hen, rfl, rfl, rfl,
-      Or.inr ⟨rfl, rfl, (requested_of_enabled hen).2, hmux⟩⟩
+    exact (mem_hostIfaceUnits hq).2 ⟨a, ifc, e, eligible_local he hifc hena, hostMapped_of_publishedAs he hpub,
+      rfl, rfl, rfl, rfl, not_excluded_supported hexe, Or.inr ⟨rfl, rfl, (requested_of_enabled hen).2, hmux⟩⟩
   obtain ⟨mc, hmc, hd⟩ := runCycleUnits_hostUdp s1 s.cyc.cycles.length s.cyc.gen (by rw [hc]; exact hh)
     (by rw [hc]; exact hmux) (by rw [hc]; exact hpr) hl _ hu rfl
   refine ⟨mc, hmc, ?_⟩
-  have hk : (!s.cfg.mdnsGather && a.cls.isLinkLocal6) = false := by
-    simp only [eligibleAddr, Bool.and_eq_true, Bool.or_eq_true, Bool.not_eq_true'] at he
-    rcases he.2 with h | h <;> simp [h]
   rw [hd, hc]
-  exact ⟨rfl, rfl, rfl, by simpa [unitCand] using hk⟩
+  exact ⟨rfl, rfl, rfl, rfl⟩
 
-/-- completeness for the UDP mux: every listen address of an enabled family that is not in an
-excluded class has its unit -/
+/-- completeness for the UDP mux: every listen address `a`, for every address `e` it is to be published as
+(lookup without interface name) that is of an enabled family and not in an excluded class, has its unit -/
 theorem C18_complete_mux (cfg : Config) (ifs : List Iface) (hq : cfg.quirks = [])
     (hh : cfg.candTypes.contains .host = true) (addrs : List Addr) (hm : cfg.udpMux = some addrs) (a : Addr)
-    (ha : a ∈ addrs) (hen : netEnabled cfg (NetType.ofTransport false a.cls.is6) = true)
-    (hex : excludedClass a.cls = false) :
-    ∃ u ∈ allUnits cfg ifs, u.kind = .hostMux ∧ u.bind = a := by
-  refine ⟨{ kind := .hostMux, net := NetType.ofTransport false a.cls.is6, bind := a }, ?_, rfl, rfl⟩
+    (ha : a ∈ addrs) (e : Addr) (hpub : PublishedAs cfg a none e)
+    (hen : netEnabled cfg (NetType.ofTransport false e.cls.is6) = true)
+    (hex : excludedClass e.cls = false) :
+    ∃ u ∈ allUnits cfg ifs, u.kind = .hostMux ∧ u.bind = a ∧ u.mapped = e := by
+  refine ⟨{ kind := .hostMux, net := NetType.ofTransport false e.cls.is6, bind := a, mapped := e }, ?_, rfl, rfl, rfl⟩
   simp only [allUnits, hh, ↓reduceIte, List.mem_append]
   refine Or.inl (Or.inl (Or.inl ?_))
-  refine (mem_hostMuxUnits hq).2 ⟨addrs, a, hm, ha, rfl, (requested_of_enabled hen).2, ?_⟩
-  intro h6
-  cases hc : a.cls <;> simp_all [excludedClass, AddrClass.supported6, AddrClass.is6]
+  refine (mem_hostMuxUnits hq).2 ⟨addrs, a, e, hm, ha, ?_, rfl, (requested_of_enabled hen).2, not_excluded_supported hex⟩
+  rcases hpub with ⟨rfl, h⟩ | h
+  · exact muxMapped_self h
+  · exact muxMapped_ext h
 
 /-! ### C18_cycle -/
 
@@ -614,6 +804,60 @@ example : IceProofs.GatherCyc.quiet {} [.gather, .start 0, .addCheck 0, .addHand
   decide
 example : (Cycle.run false {} [.gather, .start 0, .complete 0, .gather, .restart, .gather]).2
     = [.accepted 0 0, .stateSet 0 .gathering, .nilCand 0 0, .stateSet 0 .complete, .refused, .restarted 1, .accepted 1 1] := by
+  decide
+
+/-! ### host rewrite rules: the hypotheses of the completeness theorems are satisfiable, and C18-G8 -/
+
+/-- replace-mode catch-all rule: IPv4 locals are published as `x4.70`, IPv6 locals as the site-local `s6.71`
+(C18-G8: that one must not be published) and `x6.72` -/
+def hrCfg : Config := { candTypes := [.host], hostRule := some { replace := true, exts := [⟨.x4, 70⟩, ⟨.s6, 71⟩, ⟨.x6, 72⟩] } }
+def hrIfs : List Iface := [{ name := 0, up := true, loopback := false, addrs := [⟨.g4, 1⟩, ⟨.g6, 1⟩] },
+                           { name := 1, up := true, loopback := false, addrs := [⟨.g4, 2⟩] }]
+
+example : realAddrs hrCfg hrIfs = true := by decide
+example : eligibleAddr hrCfg hrIfs ⟨.g6, 1⟩ = true ∧ acceptedIfacesOf hrCfg hrIfs ⟨.g6, 1⟩ = [0] := by decide
+/-- the rule takes `g6.1` away and has it published as `s6.71` and `x6.72`; `g4.2` (interface 1) as `x4.70` -/
+example : PublishedAs hrCfg ⟨.g6, 1⟩ (some 0) ⟨.x6, 72⟩ ∧ PublishedAs hrCfg ⟨.g6, 1⟩ (some 0) ⟨.s6, 71⟩
+    ∧ ¬ PublishedAs hrCfg ⟨.g6, 1⟩ (some 0) ⟨.g6, 1⟩ ∧ PublishedAs hrCfg ⟨.g4, 2⟩ (some 1) ⟨.x4, 70⟩ := by
+  refine ⟨Or.inr (by decide), Or.inr (by decide), ?_, Or.inr (by decide)⟩
+  rintro (⟨_, h⟩ | h)
+  · exact absurd h (by decide)
+  · exact absurd h (by decide)
+/-- with an interface-scoped rule the other interface's address stays in place -/
+example : PublishedAs { hrCfg with hostRule := some { replace := true, iface := some 1, exts := [⟨.x4, 70⟩] } }
+    ⟨.g4, 1⟩ (some 0) ⟨.g4, 1⟩ := Or.inl ⟨rfl, by decide⟩
+/-- the units of the repaired model: socket on the local address, candidate on the mapped one; no unit for `s6.71` -/
+example : (allUnits hrCfg hrIfs).map (fun u => (u.bind, u.mapped))
+    = [(⟨.g4, 1⟩, ⟨.x4, 70⟩), (⟨.g6, 1⟩, ⟨.x6, 72⟩), (⟨.g4, 2⟩, ⟨.x4, 70⟩)] := by decide
+/-- C18-G8 in the model: with the quirk the unit for the site-local external address exists and the spec
+rejects its candidate; without the quirk it does not exist -/
+example : ({ kind := .hostUdp, net := .udp6, bind := ⟨.g6, 1⟩, mapped := ⟨.s6, 71⟩ } : GUnit) ∈ allUnits { hrCfg with quirks := [8] } hrIfs
+    ∧ ({ kind := .hostUdp, net := .udp6, bind := ⟨.g6, 1⟩, mapped := ⟨.s6, 71⟩ } : GUnit) ∉ allUnits hrCfg hrIfs := by decide
+example : candViolation hrCfg hrIfs (unitCand hrCfg { kind := .hostUdp, net := .udp6, bind := ⟨.g6, 1⟩, mapped := ⟨.s6, 71⟩ } 0 0)
+    = some "site-local or IPv4-compatible IPv6 address published" := by decide
+/-- the spec looks at the SOCKET for the filter clause: a rewritten candidate whose socket sits on an address
+no accepted interface carries is rejected -/
+example : candViolation hrCfg hrIfs { ty := .host, net := .udp4, addr := ⟨.x4, 70⟩, base := some ⟨.g4, 9⟩ }
+    = some "socket of the rewritten host candidate on an interface/address the filters or the loopback setting reject" := by decide
+example : candViolation hrCfg hrIfs { ty := .host, net := .udp4, addr := ⟨.x4, 99⟩, base := some ⟨.g4, 1⟩ }
+    = some "host candidate publishes an address that is neither its socket's nor an external address of the host rewrite rule" := by
+  decide
+/-- the agent model on that configuration: three sockets, three candidates (the two IPv4 ones differ by their port) -/
+example : (match newAgent hrCfg hrIfs with
+    | .ok s => let s' := (step s .gather).1
+               (s'.cands.map (fun c => (c.d.net, c.d.addr, c.d.base)), s'.opens, s'.closes)
+    | .error _ => ([], 9, 9))
+    = ([(NetType.udp4, ⟨.x4, 70⟩, some ⟨.g4, 1⟩), (NetType.udp6, ⟨.x6, 72⟩, some ⟨.g6, 1⟩), (NetType.udp4, ⟨.x4, 70⟩, some ⟨.g4, 2⟩)], 3, 0) := by
+  decide
+/-- … and with a single-port range the second IPv4 candidate is a duplicate: its socket is closed at once -/
+example : (match newAgent { hrCfg with portMin := 5000, portMax := 5000 } hrIfs with
+    | .ok s => let s' := (step s .gather).1
+               (s'.cands.map (fun c => (c.d.addr, c.d.base)), s'.opens, s'.closes, s'.liveRes.length)
+    | .error _ => ([], 9, 9, 9))
+    = ([(⟨.x4, 70⟩, some ⟨.g4, 1⟩), (⟨.x6, 72⟩, some ⟨.g6, 1⟩)], 3, 1, 2) := by decide
+/-- the constructor refuses a host rule in mDNS gather mode and without the host candidate type -/
+example : (match newAgent { hrCfg with mdnsGather := true } hrIfs with | .error e => some e | .ok _ => none) = some .mdnsRewrite
+    ∧ (match newAgent { hrCfg with candTypes := [.srflx] } hrIfs with | .error e => some e | .ok _ => none) = some .ineffectiveHost := by
   decide
 
 end IceProps.C18
